@@ -1,5 +1,5 @@
 (* C14: lemmas and theorems about gen/ConvergeGen.v (translated decision function) and lib/Converge.v *)
-From Coq Require Import ZArith List Bool Arith Lia.
+From Coq Require Import ZArith List Bool Arith Lia Permutation.
 Import ListNotations.
 Require Import Verif.lib.PyLite Verif.gen.ConvergeGen Verif.lib.Converge.
 
@@ -297,9 +297,9 @@ Proof.
   - eapply goodp_iff; [| |apply (H i)]; [reflexivity|]. split; [discriminate|intros E; inversion E; congruence].
 Qed.
 
-Lemma upd_same f c k : upd f c k c = k.
+Lemma upd_same {A} (f : nat -> A) c k : upd f c k c = k.
 Proof. unfold upd. rewrite Nat.eqb_refl. reflexivity. Qed.
-Lemma upd_other f c k i : i <> c -> upd f c k i = f i.
+Lemma upd_other {A} (f : nat -> A) c k i : i <> c -> upd f c k i = f i.
 Proof. unfold upd. intros H. destruct (Nat.eqb_spec i c); [contradiction|reflexivity]. Qed.
 
 Lemma init_inv : inv init.
@@ -312,10 +312,15 @@ Lemma inv_same s s' :
   inv s -> inv s'.
 Proof. unfold inv, bounded. intros -> -> -> ->. auto. Qed.
 
-Lemma broker_connector_gone t : t_broker (connector_gone t) = t_broker t.
+Lemma broker_getref_tub n t : t_broker (getref_tub n t) = t_broker t.
+Proof. unfold getref_tub. destruct (t_broker t) eqn:E; [cbn; auto|]. destruct (t_connector t); cbn; auto. Qed.
+
+Lemma broker_connector_gone n t : t_broker (connector_gone n t) = t_broker t.
 Proof.
-  destruct t as [a b c d e f g h i j k r]. unfold connector_gone, connection_failed_forgets_first, errback_all. cbn.
-  destruct b; [reflexivity|]. cbn. destruct (r && negb (Nat.eqb i 0))%bool; reflexivity.
+  unfold connector_gone, connection_failed_forgets_first, errback_all.
+  cbn [set_connector t_broker]. destruct (t_broker t) eqn:E; [cbn [set_connector t_broker]; exact E|].
+  match goal with |- context [if ?b then _ else _] => destruct b end;
+    [rewrite broker_getref_tub|]; cbn [set_retry fire set_connector t_broker]; exact E.
 Qed.
 
 Lemma set_tub_inv x t s : t_broker t = t_broker (tubof x s) -> inv s -> inv (set_tub x t s).
@@ -327,9 +332,6 @@ Proof.
   destruct (Nat.eqb g n && negb (any_pending x g s))%bool; [|exact H].
   apply set_tub_inv; [apply broker_connector_gone|exact H].
 Qed.
-
-Lemma broker_getref_tub t : t_broker (getref_tub t) = t_broker t.
-Proof. unfold getref_tub. destruct (t_broker t) eqn:E; [cbn; auto|]. destruct (t_connector t); cbn; auto. Qed.
 
 Lemma getref_inv x s : inv s -> inv (do_getref x s).
 Proof. intros H. unfold do_getref. apply set_tub_inv; [apply broker_getref_tub|exact H]. Qed.
@@ -517,7 +519,8 @@ Proof.
       assert (R : inv (master_reject c s0)).
       { destruct I0 as [Hb1 Hbd1]. split; [|exact Hbd1]. cbn [master_reject set_conns tm ts conns]. apply invb_upd; [exact Hb1|].
         eapply goodp_reject_m; [exact Em0|apply Hb1]. }
-      destruct (compare_offer (Some inc) last (t_bir (tm s0)) (t_bseq (tm s0)) (t_inc (tm s0)) None 0) as [[|]|] eqn:Ecmp;
+      match goal with |- context [compare_offer ?a1 ?a2 ?a3 ?a4 ?a5 ?a6 ?a7] =>
+        destruct (compare_offer a1 a2 a3 a4 a5 a6 a7) as [[|]|] eqn:Ecmp end;
         try exact R.
       pose proof (drop_existing_m s0 I0) as (D1 & D2 & D3 & D4 & D5 & D6). cbv zeta in *.
       apply master_accept_inv; rewrite ?D3, ?D4; auto;
@@ -552,7 +555,7 @@ Proof.
     destruct (c_s (conns s c)) eqn:Es; try (apply Hidle; reflexivity); [apply Hl; reflexivity|].
     pose proof (drop_existing_s s H) as (D1 & D2 & D3 & D4 & D5). cbv zeta in *.
     assert (Ec : conns (drop_existing TS s) c = conns s c) by (apply D5; rewrite Es; discriminate).
-    apply attach_inv_s; cbn [tm ts conns nconn t_broker]; rewrite ?D3, ?D4; [|exact Hc|apply H].
+    apply attach_inv_s; cbn [set_tub set_conns set_slave tm ts conns nconn t_broker]; rewrite ?D3, ?D4; [|exact Hc|apply H].
     apply invb_set_s; [exact D1|]. rewrite Ec. eapply goodp_dec_s; [exact Eq|exact Es|exact Gc].
   - (* ErrorBlk *)
     destruct (c_s (conns s c)) eqn:Es; try (apply Hidle; reflexivity); apply Hl; reflexivity.
@@ -563,9 +566,29 @@ Proof.
     apply upd_c_inv; [exact H|]. apply goodp_pop_ms_closed; [rewrite Es; reflexivity|exact Gc].
 Qed.
 
+(* time passes: negotiation timers of listening ends and connector timers fire *)
+Lemma goodp_srv_expire pm ps n d k : goodp pm ps k -> goodp pm ps (srv_expire n d k).
+Proof.
+  intros H. unfold srv_expire, srv_armed.
+  destruct (negotiating (cend (server_of k) k) && (d <=? n)%Z)%bool eqn:E; [|exact H].
+  apply andb_true_iff in E as [E _]. apply goodp_lose_neg; assumption.
+Qed.
+
+Lemma advance_inv dt s : inv s -> inv (do_advance dt s).
+Proof.
+  intros [Hb Hbd]. unfold do_advance.
+  set (n := Z.max (now s) (next_time s (now s + Z.max dt 0))).
+  set (s2 := set_conns (fun i => srv_expire n (sdl s i) (conns s i)) (set_now n s)).
+  assert (H2 : inv s2).
+  { split; [|exact Hbd]. cbn [s2 set_conns set_now tm ts conns]. intros i. apply goodp_srv_expire, Hb. }
+  assert (H3 : inv (if expired TM s2 then do_timeout TM s2 else s2)).
+  { destruct (expired TM s2); [apply timeout_inv|]; exact H2. }
+  destruct (expired TS _); [apply timeout_inv|]; exact H3.
+Qed.
+
 Theorem step_inv s o : inv s -> inv (step s o).
 Proof.
-  intros H. destruct o as [x|x|c to|c x|c|x|x|x]; cbn [step]; [| | | | | | |apply set_tub_inv; [reflexivity|exact H]].
+  intros H. destruct o as [x|x|c to|c x|c|x|x|x|dt|o]; cbn [step].
   - apply getref_inv, H.
   - apply dial_inv, H.
   - destruct to; destruct (Nat.ltb_spec c (nconn s)); try exact H; [apply deliver_m_inv|apply deliver_s_inv]; assumption.
@@ -573,6 +596,9 @@ Proof.
   - destruct (Nat.ltb_spec c (nconn s)); [apply cut_inv|]; exact H.
   - apply restart_inv, H.
   - apply timeout_inv, H.
+  - apply set_tub_inv; [reflexivity|exact H].
+  - apply advance_inv, H.
+  - exact H.
 Qed.
 
 Lemma fold_inv ops : forall s, inv s -> inv (fold_left step ops s).
@@ -628,96 +654,193 @@ Example flap_after_master_restart :
                 Deliver 1 TS; Deliver 1 TS;            (* S attaches link 1, cancels link 2 *)
                 Deliver 1 TS; Deliver 2 TM; CloseSeen 1 TM; CloseSeen 2 TS; Deliver 2 TS; Deliver 2 TS; Deliver 2 TS;
                 Deliver 1 TM] in
-  t_master (tm s) = 2%Z /\ t_broker (tm s) = None /\ t_broker (ts s) = None /\ t_fired (ts s) = 2 /\
+  t_master (tm s) = 2%Z /\ t_broker (tm s) = None /\ t_broker (ts s) = None /\ List.length (t_fired (ts s)) = 2 /\
   forallb (fun i => quiet_conn (conns s i)) (seq 0 (nconn s)) = true.
 Proof. vm_compute. auto. Qed.
 
 (* ------------------------------------------------------------------------------------------ *)
-(* 5. lookups: every waiter is answered when the connector finishes                            *)
+(* 5. lookups: identified waiters, virtual time                                                *)
 
-Definition wgood (t : tub) : Prop :=
-  (t_waiters t <> 0 -> t_connector t <> None) /\
-  (t_broker t <> None -> t_waiters t = 0) /\
-  t_issued t = t_fired t + t_waiters t.
-Definition winv (s : state) : Prop := wgood (tm s) /\ wgood (ts s).
+Lemma T_pos : (0 < CONNECTION_TIMEOUT)%Z.
+Proof. unfold CONNECTION_TIMEOUT. lia. Qed.
 
-Lemma wgood_getref t : wgood t -> wgood (getref_tub t).
+(* the numbers of all lookups that were answered or are waiting *)
+Definition ids (t : tub) : list nat := map f_id (t_fired t) ++ map fst (t_waiters t).
+(* between operations an armed timer lies strictly in the future (b = true); inside `Advance`, after the clock
+   has moved and before the due timers have fired, it may be due now (b = false) *)
+Definition dl_ok (b : bool) (n d : Z) : Prop := if b then (n < d)%Z else (n <= d)%Z.
+
+Definition wgood (b : bool) (n : Z) (t : tub) : Prop :=
+  (t_waiters t <> [] -> t_connector t <> None) /\
+  (t_broker t <> None -> t_waiters t = []) /\
+  Permutation (ids t) (seq 0 (t_issued t)) /\
+  (t_connector t <> None -> dl_ok b n (t_deadline t) /\ (t_deadline t <= n + CONNECTION_TIMEOUT)%Z) /\
+  (forall w r, In (w, r) (t_waiters t) -> (r <= n)%Z /\ (t_deadline t <= r + CONNECTION_TIMEOUT)%Z) /\
+  (forall f, In f (t_fired t) -> (f_reg f <= f_at f)%Z /\ (f_at f <= f_reg f + CONNECTION_TIMEOUT)%Z /\ (f_at f <= n)%Z).
+Definition winv (b : bool) (s : state) : Prop := wgood b (now s) (tm s) /\ wgood b (now s) (ts s).
+
+Lemma dl_ok_le b n d : dl_ok b n d -> (n <= d)%Z.
+Proof. destruct b; cbn; lia. Qed.
+Lemma dl_ok_fresh b n : dl_ok b n (n + CONNECTION_TIMEOUT)%Z.
+Proof. pose proof T_pos. destruct b; cbn; lia. Qed.
+
+Lemma perm_mid {A} (l1 l2 : list A) x : Permutation (l1 ++ [x] ++ l2) ((l1 ++ l2) ++ [x]).
+Proof. rewrite <- app_assoc. apply Permutation_app_head. apply Permutation_cons_append. Qed.
+
+Lemma wgood_getref b n t : wgood b n t -> wgood b n (getref_tub n t).
 Proof.
-  destruct t as [a b c d e f g h w fi is r]. unfold wgood, getref_tub. cbn. intros (H1 & H2 & H3).
-  destruct b; cbn; [repeat split; auto; lia|]. destruct g; cbn; repeat split; try congruence; try lia; try discriminate.
+  intros (H1 & H2 & H3 & H4 & H5 & H6). pose proof T_pos as HT. unfold getref_tub.
+  destruct (t_broker t) as [e|] eqn:Eb.
+  - unfold wgood, ids. cbn [t_waiters t_connector t_broker t_fired t_issued t_deadline].
+    split; [exact H1|]. split; [intros _; apply H2; discriminate|]. split.
+    { rewrite map_app, <- app_assoc, seq_S. cbn [plus map f_id].
+      eapply Permutation_trans; [apply perm_mid|]. apply Permutation_app_tail. exact H3. }
+    split; [exact H4|]. split; [exact H5|].
+    intros f Hf. apply in_app_or in Hf as [Hf|[<-|[]]]; [apply H6, Hf|]. cbn. lia.
+  - destruct (t_connector t) as [g|] eqn:Ec.
+    + unfold wgood, ids. cbn [t_waiters t_connector t_broker t_fired t_issued t_deadline].
+      split; [intros _; discriminate|]. split; [intros C; contradiction C; reflexivity|]. split.
+      { rewrite map_app, app_assoc, seq_S. cbn [plus map fst]. apply Permutation_app_tail. exact H3. }
+      split; [exact H4|]. split; [|exact H6].
+      intros w r Hw. apply in_app_or in Hw as [Hw|[E|[]]]; [apply (H5 w r), Hw|]. inversion E; subst.
+      destruct H4 as [_ H4]; [discriminate|]. lia.
+    + assert (Hw0 : t_waiters t = []).
+      { destruct (t_waiters t) eqn:E; [reflexivity|]. exfalso. apply H1; [discriminate|reflexivity]. }
+      unfold wgood, ids. cbn [t_waiters t_connector t_broker t_fired t_issued t_deadline]. rewrite Hw0 in *.
+      split; [intros _; discriminate|]. split; [intros C; contradiction C; reflexivity|]. split.
+      { cbn [app map fst]. rewrite seq_S. cbn [plus]. apply Permutation_app_tail.
+        unfold ids in H3. rewrite Hw0 in H3. cbn [map] in H3. rewrite app_nil_r in H3. exact H3. }
+      split; [intros _; split; [apply dl_ok_fresh|lia]|]. split; [|exact H6].
+      intros w r [E|[]]. inversion E; subst. lia.
 Qed.
+
+(* all waiters are answered at time n and the connector is forgotten: holds with either flag afterwards *)
+Lemma wgood_fire_all b b' n ok t t' :
+  wgood b n t ->
+  t_connector t' = None -> t_waiters t' = [] -> t_issued t' = t_issued t ->
+  t_fired t' = t_fired t ++ map (fun w => mkfired (fst w) (snd w) n ok) (t_waiters t) ->
+  wgood b' n t'.
+Proof.
+  intros (H1 & H2 & H3 & H4 & H5 & H6) Ec Ew Ei Ef. unfold wgood, ids. rewrite Ec, Ew, Ei, Ef.
+  split; [intros C; contradiction C; reflexivity|]. split; [reflexivity|]. split.
+  { rewrite map_app, map_map. cbn [f_id map app]. rewrite app_nil_r. exact H3. }
+  split; [intros C; contradiction C; reflexivity|]. split; [intros w r []|].
+  intros f Hf. apply in_app_or in Hf as [Hf|Hf]; [apply H6, Hf|].
+  apply in_map_iff in Hf as ([w r] & <- & Hw). cbn [f_reg f_at fst snd].
+  destruct (H5 w r Hw) as [Hr Hd].
+  assert (Hc : t_connector t <> None) by (apply H1; intros E; rewrite E in Hw; exact Hw).
+  destruct (H4 Hc) as [Hk _]. apply dl_ok_le in Hk. lia.
+Qed.
+
+Lemma wgood_flag_none b b' n t : t_connector t = None -> wgood b n t -> wgood b' n t.
+Proof.
+  intros Ec H. unfold wgood in *. rewrite Ec in *. destruct H as (H1 & H2 & H3 & H4 & H5 & H6).
+  split; [exact H1|]. split; [exact H2|]. split; [exact H3|]. split; [intros C; contradiction C; reflexivity|]. split; assumption.
+Qed.
+
+Lemma wgood_ext b n t t' :
+  t_broker t' = t_broker t -> t_connector t' = t_connector t -> t_deadline t' = t_deadline t ->
+  t_waiters t' = t_waiters t -> t_fired t' = t_fired t -> t_issued t' = t_issued t -> wgood b n t -> wgood b n t'.
+Proof. unfold wgood, ids. intros -> -> -> -> -> ->. auto. Qed.
 
 (* uses the ORDER read from Tub.connectionFailed: the connector is forgotten before the errbacks run, so a lookup
    issued from inside an errback starts a new connector *)
-Lemma wgood_gone t : wgood t -> wgood (connector_gone t).
+Lemma wgood_gone b b' n t : wgood b n t -> wgood b' n (connector_gone n t).
 Proof.
-  destruct t as [a b c d e f g h w fi is r]. intros H. unfold wgood in H. cbn in H. destruct H as (H1 & H2 & H3).
-  unfold connector_gone, connection_failed_forgets_first. cbn.
-  destruct b; cbn.
-  - assert (w = 0) by (apply H2; discriminate). subst. unfold wgood. cbn. repeat split; auto; lia.
-  - unfold errback_all. cbn. destruct (r && negb (Nat.eqb w 0))%bool;
-      unfold wgood; cbn; repeat split; try congruence; try discriminate; lia.
+  intros H. unfold connector_gone, connection_failed_forgets_first. cbn [set_connector t_broker].
+  destruct (t_broker t) as [e|] eqn:Eb.
+  - apply (wgood_flag_none b); [reflexivity|]. destruct H as (H1 & H2 & H3 & H4 & H5 & H6).
+    assert (Hw : t_waiters t = []) by (apply H2; rewrite Eb; discriminate).
+    unfold wgood, ids. cbn [set_connector t_waiters t_connector t_broker t_fired t_issued t_deadline].
+    split; [rewrite Hw; intros C; contradiction C; reflexivity|]. split; [intros _; exact Hw|]. split; [exact H3|].
+    split; [intros C; contradiction C; reflexivity|]. split; assumption.
+  - unfold errback_all.
+    assert (Hf : forall b2, wgood b2 n (fire n false (set_connector None t))).
+    { intros b2. eapply wgood_fire_all; [exact H| | | |]; reflexivity. }
+    destruct (t_retry (set_connector None t) && negb (Nat.eqb (List.length (t_waiters (set_connector None t))) 0))%bool.
+    + apply wgood_getref. eapply wgood_ext; [| | | | | |apply (Hf b')]; reflexivity.
+    + apply Hf.
 Qed.
-Lemma wgood_attach t c : wgood t -> wgood (fire (set_broker (Some c) (set_connector None t))).
-Proof. destruct t as [a b c0 d e f g h w fi is r]. unfold wgood. cbn. intros (H1 & H2 & H3). repeat split; auto; lia. Qed.
-Lemma wgood_nobroker t : wgood t -> wgood (set_broker None t).
-Proof. destruct t as [a b c0 d e f g h w fi is r]. unfold wgood. cbn. intros (H1 & H2 & H3). repeat split; auto; congruence. Qed.
-Lemma wgood_ext t t' :
-  t_broker t' = t_broker t -> t_connector t' = t_connector t -> t_waiters t' = t_waiters t -> t_fired t' = t_fired t ->
-  t_issued t' = t_issued t -> wgood t -> wgood t'.
-Proof. unfold wgood. intros -> -> -> -> ->. auto. Qed.
 
-Lemma winv_set_tub x t s : winv s -> wgood t -> winv (set_tub x t s).
+Lemma wgood_attach b b' n c t : wgood b n t -> wgood b' n (fire n true (set_bcreated n (set_broker (Some c) (set_connector None t)))).
+Proof. intros H. eapply wgood_fire_all; [exact H| | | |]; reflexivity. Qed.
+
+Lemma wgood_nobroker b n t : wgood b n t -> wgood b n (set_broker None t).
+Proof.
+  intros (H1 & H2 & H3 & H4 & H5 & H6). unfold wgood, ids. cbn [set_broker t_waiters t_connector t_broker t_fired t_issued t_deadline].
+  split; [exact H1|]. split; [intros C; contradiction C; reflexivity|]. repeat (split; [assumption|]). assumption.
+Qed.
+
+(* the clock moves from n to n', not beyond an armed deadline *)
+Lemma wgood_mono b n n' t : wgood b n t -> (n <= n')%Z -> (t_connector t <> None -> (n' <= t_deadline t)%Z) -> wgood false n' t.
+Proof.
+  intros (H1 & H2 & H3 & H4 & H5 & H6) Hn Hd. unfold wgood.
+  split; [exact H1|]. split; [exact H2|]. split; [exact H3|]. split.
+  { intros Hc. destruct (H4 Hc) as [_ Hk]. specialize (Hd Hc). cbn. lia. }
+  split; [intros w r Hw; destruct (H5 w r Hw); lia|]. intros f Hf. destruct (H6 f Hf) as (? & ? & ?). lia.
+Qed.
+Lemma wgood_strict n t : wgood false n t -> (t_connector t <> None -> (n < t_deadline t)%Z) -> wgood true n t.
+Proof.
+  intros (H1 & H2 & H3 & H4 & H5 & H6) Hd. unfold wgood.
+  split; [exact H1|]. split; [exact H2|]. split; [exact H3|]. split; [|split; assumption].
+  intros Hc. destruct (H4 Hc) as [_ Hk]. split; [cbn; apply Hd, Hc|exact Hk].
+Qed.
+
+Lemma now_set_tub x t s : now (set_tub x t s) = now s.
+Proof. destruct x; reflexivity. Qed.
+Lemma tubof_set_tub x t s : tubof x (set_tub x t s) = t.
+Proof. destruct x; reflexivity. Qed.
+
+Lemma winv_set_tub b x t s : winv b s -> wgood b (now s) t -> winv b (set_tub x t s).
 Proof. intros [Hm Hs] Ht. destruct x; split; cbn; assumption. Qed.
-Lemma winv_tubof x s : winv s -> wgood (tubof x s).
+Lemma winv_tubof b x s : winv b s -> wgood b (now s) (tubof x s).
 Proof. intros [Hm Hs]. destruct x; assumption. Qed.
-Lemma winv_conns f s : winv s -> winv (set_conns f s).
-Proof. auto. Qed.
 
-Lemma winv_connector_failed x g s : winv s -> winv (connector_failed x g s).
+Lemma winv_connector_failed b x g s : winv b s -> winv b (connector_failed x g s).
 Proof.
   intros H. unfold connector_failed. destruct (t_connector (tubof x s)); [|exact H].
   destruct (Nat.eqb g n && negb (any_pending x g s))%bool; [|exact H].
-  apply winv_set_tub; [exact H|apply wgood_gone, winv_tubof, H].
+  apply winv_set_tub; [exact H|eapply wgood_gone, winv_tubof, H].
 Qed.
 
-Lemma winv_conn_lost x c pre s : winv s -> winv (conn_lost x c pre s).
+Lemma winv_conn_lost b x c pre s : winv b s -> winv b (conn_lost x c pre s).
 Proof.
   intros H. unfold conn_lost.
   set (s1 := set_conns (upd (conns s) c (set_end x ELost (pre (conns s c)))) s).
-  assert (H1 : winv s1) by exact H.
+  assert (H1 : winv b s1) by exact H.
   destruct (cend x (pre (conns s c))); try exact H1;
     try (destruct (tub_eqb (c_client (pre (conns s c))) x); [apply winv_connector_failed|]; exact H1).
   destruct (t_broker (tubof x s1)); [|exact H1]. destruct (Nat.eqb n c); [|exact H1].
-  apply winv_set_tub; [exact H1|apply wgood_nobroker, winv_tubof, H1].
+  apply winv_set_tub; [exact H1|apply wgood_nobroker, (winv_tubof b x s1 H1)].
 Qed.
 
-Lemma winv_drop x s : winv s -> winv (drop_existing x s).
+Lemma winv_drop b x s : winv b s -> winv b (drop_existing x s).
 Proof.
   intros H. unfold drop_existing. destruct (t_broker (tubof x s)); [|exact H].
-  apply winv_set_tub; [exact H|apply wgood_nobroker, winv_tubof, H].
+  apply winv_set_tub; [exact H|apply wgood_nobroker, (winv_tubof b x s H)].
 Qed.
 
-Lemma winv_attach x c s : winv s -> winv (attach x c s).
+Lemma winv_attach b x c s : winv b s -> winv b (attach x c s).
 Proof.
   intros H. unfold attach.
-  match goal with |- winv (set_tub x _ ?s1) => assert (H1 : winv s1) end.
-  { destruct (tub_eqb (c_client (conns s c)) x); [exact H|]. destruct (t_connector (tubof x s)); exact H. }
-  apply winv_set_tub; [exact H1|apply wgood_attach, winv_tubof, H1].
+  match goal with |- winv b (set_tub x _ ?s1) => assert (H1 : winv b s1 /\ now s1 = now s) end.
+  { destruct (tub_eqb (c_client (conns s c)) x); [split; [exact H|reflexivity]|].
+    destruct (t_connector (tubof x s)); split; try exact H; reflexivity. }
+  destruct H1 as [H1 En]. apply winv_set_tub; [exact H1|]. rewrite En. eapply wgood_attach. rewrite <- En. apply winv_tubof, H1.
 Qed.
 
-Lemma winv_master_accept c inc s : winv s -> winv (master_accept c inc s).
+Lemma winv_master_accept b c inc s : winv b s -> winv b (master_accept c inc s).
 Proof.
-  intros [Hm Hs]. unfold master_accept. apply winv_attach. split; cbn [tm ts]; [|exact Hs].
-  eapply wgood_ext; [| | | | |exact Hm]; reflexivity.
+  intros [Hm Hs]. unfold master_accept. apply winv_attach. split; cbn [set_tub set_conns tm ts now]; [|exact Hs].
+  eapply wgood_ext; [| | | | | |exact Hm]; reflexivity.
 Qed.
 
-Lemma winv_deliver_m c s : winv s -> winv (deliver_m c s).
+Lemma winv_deliver_m b c s : winv b s -> winv b (deliver_m c s).
 Proof.
   intros H. unfold deliver_m. destruct (c_qsm (conns s c)) as [|m q]; [exact H|].
   destruct m.
   - destruct (c_m (conns s c)); try exact H.
-    match goal with |- context [t_broker (tm ?s0)] => assert (H0 : winv s0) by exact H end.
+    match goal with |- context [t_broker (tm ?s0)] => assert (H0 : winv b s0) by exact H end.
     destruct (t_broker (tm _)).
     + destruct (compare_offer _ _ _ _ _ _ _) as [[|]|]; try exact H0. apply winv_master_accept, winv_drop, H0.
     + apply winv_master_accept, H0.
@@ -726,101 +849,277 @@ Proof.
   - destruct (c_m (conns s c)); try exact H; apply winv_conn_lost, H.
 Qed.
 
-Lemma winv_deliver_s c s : winv s -> winv (deliver_s c s).
+Lemma winv_deliver_s b c s : winv b s -> winv b (deliver_s c s).
 Proof.
   intros H. unfold deliver_s. destruct (c_qms (conns s c)) as [|m q]; [exact H|].
   destruct m.
   - destruct (c_s (conns s c)); exact H.
   - destruct (c_s (conns s c)); try exact H.
-    apply winv_attach. pose proof (winv_drop TS s H) as [Dm Ds]. split; cbn [tm ts]; [exact Dm|].
-    eapply wgood_ext; [| | | | |exact Ds]; reflexivity.
+    apply winv_attach. pose proof (winv_drop b TS s H) as [Dm Ds]. split; cbn [set_tub set_conns tm ts now]; [exact Dm|].
+    eapply wgood_ext; [| | | | | |exact Ds]; reflexivity.
   - destruct (c_s (conns s c)); exact H.
   - destruct (c_s (conns s c)); try exact H; apply winv_conn_lost, H.
 Qed.
 
-Lemma winv_getref x s : winv s -> winv (do_getref x s).
+Lemma winv_getref b x s : winv b s -> winv b (do_getref x s).
 Proof. intros H. unfold do_getref. apply winv_set_tub; [exact H|apply wgood_getref, winv_tubof, H]. Qed.
 
-Theorem step_winv s o : winv s -> winv (step s o).
+(* the connector's timer fires (or is forced): afterwards the flag is whatever is wanted for x; the other Tub is untouched *)
+Lemma timeout_self b b' x s : wgood b (now s) (tubof x s) -> wgood b' (now s) (tubof x (do_timeout x s)).
 Proof.
-  intros H. destruct o as [x|x|c to|c x|c|x|x|x]; cbn [step];
-    [| | | | | | |apply winv_set_tub; [exact H|]; eapply wgood_ext; [| | | | |exact (winv_tubof x s H)]; reflexivity].
+  intros H. unfold do_timeout. destruct (t_connector (tubof x s)) eqn:Ec.
+  - rewrite tubof_set_tub. assert (E1 : tubof x (map_conns (cancel x n) s) = tubof x s) by (destruct x; reflexivity).
+    rewrite E1. cbn [map_conns set_conns now]. eapply wgood_gone, H.
+  - eapply wgood_flag_none; [exact Ec|exact H].
+Qed.
+Lemma timeout_now x s : now (do_timeout x s) = now s.
+Proof. unfold do_timeout. destruct (t_connector (tubof x s)); [|reflexivity]. rewrite now_set_tub. reflexivity. Qed.
+Lemma timeout_other_m s : tm (do_timeout TS s) = tm s.
+Proof. unfold do_timeout. destruct (t_connector (tubof TS s)); reflexivity. Qed.
+Lemma timeout_other_s s : ts (do_timeout TM s) = ts s.
+Proof. unfold do_timeout. destruct (t_connector (tubof TM s)); reflexivity. Qed.
+
+Lemma winv_timeout b x s : winv b s -> winv b (do_timeout x s).
+Proof.
+  intros [Hm Hs]. split; rewrite timeout_now; destruct x.
+  - apply (timeout_self b b TM s Hm).
+  - rewrite timeout_other_m. exact Hm.
+  - rewrite timeout_other_s. exact Hs.
+  - apply (timeout_self b b TS s Hs).
+Qed.
+
+(* a step other than the passage of time keeps the invariant with either flag *)
+Lemma step_winv_untimed b s o : (forall dt, o <> Advance dt) -> winv b s -> winv b (step s o).
+Proof.
+  intros Hna H. destruct o as [x|x|c to|c x|c|x|x|x|dt|o]; cbn [step].
   - apply winv_getref, H.
   - unfold do_dial. destruct (t_connector (tubof x s)); exact H.
   - destruct to; destruct (Nat.ltb c (nconn s)); try exact H; [apply winv_deliver_m|apply winv_deliver_s]; exact H.
   - destruct (Nat.ltb c (nconn s)); [|exact H]. unfold do_closeseen. destruct (close_pending x (conns s c)); [|exact H].
     apply winv_conn_lost, H.
   - destruct (Nat.ltb c (nconn s)); exact H.
-  - unfold do_restart. apply winv_set_tub; [exact H|]. unfold wgood, new_tub. cbn. repeat split; congruence.
-  - unfold do_timeout. destruct (t_connector (tubof x s)); [|exact H].
-    apply winv_set_tub; [exact H|]. apply wgood_gone. exact (winv_tubof x _ H).
+  - unfold do_restart. apply winv_set_tub; [exact H|]. unfold wgood, new_tub, ids. cbn.
+    split; [intros C; contradiction C; reflexivity|]. split; [reflexivity|]. split; [constructor|].
+    split; [intros C; contradiction C; reflexivity|]. split; [intros w r []|intros f []].
+  - apply winv_timeout, H.
+  - apply winv_set_tub; [exact H|]. eapply wgood_ext; [| | | | | |exact (winv_tubof b x s H)]; reflexivity.
+  - exfalso. apply (Hna dt). reflexivity.
+  - exact H.
 Qed.
 
-Theorem run_winv ops : winv (run ops).
+Lemma fold_min_le (P : nat -> bool) (f : nat -> Z) l : forall a, (fold_left (fun n i => if P i then Z.min n (f i) else n) l a <= a)%Z.
 Proof.
-  unfold run. assert (G : forall l s, winv s -> winv (fold_left step l s)).
-  { induction l as [|o r IH]; intros s H; cbn [fold_left]; [exact H|apply IH, step_winv, H]. }
-  apply G. split; unfold wgood; cbn; repeat split; congruence.
+  induction l as [|i l IH]; intros a; cbn [fold_left]; [lia|].
+  eapply Z.le_trans; [apply IH|]. destruct (P i); lia.
 Qed.
+
+Lemma next_time_le s n0 :
+  (next_time s n0 <= n0)%Z /\
+  (t_connector (tm s) <> None -> next_time s n0 <= t_deadline (tm s))%Z /\
+  (t_connector (ts s) <> None -> next_time s n0 <= t_deadline (ts s))%Z.
+Proof.
+  unfold next_time.
+  match goal with |- context [fold_left ?g ?l ?a] =>
+    pose proof (fold_min_le (fun i => srv_armed (conns s i) && (now s <? sdl s i)%Z)%bool (sdl s) l a) as Hf end.
+  cbv beta in Hf.
+  destruct (t_connector (tm s)), (t_connector (ts s)); repeat split; try (intros C; contradiction C; reflexivity); intros; lia.
+Qed.
+
+Lemma winv_advance dt s : winv true s -> winv true (do_advance dt s).
+Proof.
+  intros [Hm Hs]. unfold do_advance.
+  set (n := Z.max (now s) (next_time s (now s + Z.max dt 0))).
+  destruct (next_time_le s (now s + Z.max dt 0)) as (_ & Lm & Ls).
+  assert (Hn : (now s <= n)%Z) by (unfold n; lia).
+  assert (Hdm : t_connector (tm s) <> None -> (n <= t_deadline (tm s))%Z).
+  { intros Hc. specialize (Lm Hc). destruct Hm as (_ & _ & _ & H4 & _). destruct (H4 Hc) as [Hk _]. cbn in Hk. unfold n. lia. }
+  assert (Hds : t_connector (ts s) <> None -> (n <= t_deadline (ts s))%Z).
+  { intros Hc. specialize (Ls Hc). destruct Hs as (_ & _ & _ & H4 & _). destruct (H4 Hc) as [Hk _]. cbn in Hk. unfold n. lia. }
+  set (s2 := set_conns (fun i => srv_expire n (sdl s i) (conns s i)) (set_now n s)).
+  assert (Gm : wgood false n (tm s2)) by (eapply wgood_mono; [exact Hm|exact Hn|exact Hdm]).
+  assert (Gs : wgood false n (ts s2)) by (eapply wgood_mono; [exact Hs|exact Hn|exact Hds]).
+  assert (En2 : now s2 = n) by reflexivity.
+  (* M's timer *)
+  set (s3 := if expired TM s2 then do_timeout TM s2 else s2).
+  assert (G3 : wgood true n (tm s3) /\ wgood false n (ts s3) /\ now s3 = n).
+  { unfold s3. destruct (expired TM s2) eqn:Ex.
+    - rewrite timeout_now, timeout_other_s. split; [|split; [exact Gs|exact En2]].
+      rewrite <- En2. apply (timeout_self false true TM s2). rewrite En2. exact Gm.
+    - split; [|split; [exact Gs|exact En2]]. apply wgood_strict; [exact Gm|].
+      intros Hc. unfold expired in Ex. cbn [tubof] in Ex. destruct (t_connector (tm s2)); [|contradiction Hc; reflexivity].
+      rewrite En2 in Ex. apply Z.leb_gt in Ex. exact Ex. }
+  destruct G3 as (G3m & G3s & En3).
+  destruct (expired TS s3) eqn:Ex.
+  - split; rewrite timeout_now, En3.
+    + rewrite timeout_other_m. exact G3m.
+    + rewrite <- En3. apply (timeout_self false true TS s3). rewrite En3. exact G3s.
+  - split; rewrite En3; [exact G3m|]. apply wgood_strict; [exact G3s|].
+    intros Hc. unfold expired in Ex. cbn [tubof] in Ex. destruct (t_connector (ts s3)); [|contradiction Hc; reflexivity].
+    rewrite En3 in Ex. apply Z.leb_gt in Ex. exact Ex.
+Qed.
+
+Theorem step_winv s o : winv true s -> winv true (step s o).
+Proof.
+  intros H. destruct o as [x|x|c to|c x|c|x|x|x|dt|o]; try (apply step_winv_untimed; [intros dt'; discriminate|exact H]).
+  apply winv_advance, H.
+Qed.
+
+Theorem run_winv ops : winv true (run ops).
+Proof.
+  unfold run. assert (G : forall l s, winv true s -> winv true (fold_left step l s)).
+  { induction l as [|o r IH]; intros s H; cbn [fold_left]; [exact H|apply IH, step_winv, H]. }
+  apply G. split; unfold wgood, ids; cbn;
+    (split; [intros C; contradiction C; reflexivity|]; split; [reflexivity|]; split; [constructor|];
+     split; [intros C; contradiction C; reflexivity|]; split; [intros w r []|intros f []]).
+Qed.
+
+(* ------------------------------------------------------------------------------------------ *)
+(* 6. every lookup is answered, once, within CONNECTION_TIMEOUT                                *)
 
 (* when the connector is gone (success, every attempt failed, or time-out) nobody is left waiting *)
-Theorem waiters_fire ops x : t_connector (tubof x (run ops)) = None -> t_waiters (tubof x (run ops)) = 0.
+Theorem waiters_fire ops x : t_connector (tubof x (run ops)) = None -> t_waiters (tubof x (run ops)) = [].
 Proof.
-  intros E. destruct (winv_tubof x _ (run_winv ops)) as (W1 & _).
+  intros E. destruct (winv_tubof true x _ (run_winv ops)) as (W1 & _).
   destruct (t_waiters (tubof x (run ops))) eqn:Ew; [reflexivity|]. exfalso. apply W1; [discriminate|exact E].
 Qed.
 
-Lemma fired_gone t : wgood t -> t_connector t <> None ->
-  t_fired (connector_gone t) = t_fired t + t_waiters t.
+(* no lookup is lost or answered twice: the numbers of the answered and the waiting lookups are exactly 0 .. issued-1,
+   each once; nobody waits while a connection exists *)
+Theorem lookups_accounted ops x :
+  let t := tubof x (run ops) in
+  NoDup (map f_id (t_fired t) ++ map fst (t_waiters t)) /\
+  (forall w, In w (map f_id (t_fired t) ++ map fst (t_waiters t)) <-> w < t_issued t) /\
+  (t_broker t <> None -> t_waiters t = []).
 Proof.
-  destruct t as [a b c d e f g h w fi is r]. unfold connector_gone, connection_failed_forgets_first, errback_all, wgood. cbn.
-  intros (H1 & H2 & H3) _. destruct b; cbn.
-  - assert (w = 0) by (apply H2; discriminate). lia.
-  - destruct (r && negb (Nat.eqb w 0))%bool; reflexivity.
+  cbv zeta. destruct (winv_tubof true x _ (run_winv ops)) as (_ & W2 & W3 & _). fold (ids (tubof x (run ops))).
+  split; [|split; [|exact W2]].
+  - eapply Permutation_NoDup; [apply Permutation_sym, W3|apply seq_NoDup].
+  - intros w. split; intros H.
+    + apply (Permutation_in _ W3) in H. apply in_seq in H. lia.
+    + apply (Permutation_in _ (Permutation_sym W3)). apply in_seq. lia.
 Qed.
 
-(* whoever waits has a live connector, i.e. an armed CONNECTION_TIMEOUT timer; when it fires, every lookup that was
-   waiting is answered (fired grows by exactly the number of waiters) -- and a lookup issued synchronously from inside
-   one of those errbacks (an instant retry) again has a live connector of its own *)
+(* every answer came within CONNECTION_TIMEOUT of the lookup (and not before it) *)
+Theorem fired_within_timeout ops x f :
+  In f (t_fired (tubof x (run ops))) ->
+  (f_reg f <= f_at f)%Z /\ (f_at f <= f_reg f + CONNECTION_TIMEOUT)%Z /\ (f_at f <= now (run ops))%Z.
+Proof. intros H. destruct (winv_tubof true x _ (run_winv ops)) as (_ & _ & _ & _ & _ & W6). apply W6, H. Qed.
+
+(* whoever still waits has a live connector whose armed timer fires within CONNECTION_TIMEOUT of the lookup, and that
+   moment has not passed: no lookup is ever waiting at (time of the lookup + CONNECTION_TIMEOUT) *)
+Theorem waiting_has_armed_timer ops x w r :
+  In (w, r) (t_waiters (tubof x (run ops))) ->
+  t_connector (tubof x (run ops)) <> None /\
+  (r <= now (run ops))%Z /\ (now (run ops) < t_deadline (tubof x (run ops)))%Z /\
+  (t_deadline (tubof x (run ops)) <= r + CONNECTION_TIMEOUT)%Z.
+Proof.
+  intros H. destruct (winv_tubof true x _ (run_winv ops)) as (W1 & _ & _ & W4 & W5 & _).
+  assert (Hc : t_connector (tubof x (run ops)) <> None) by (apply W1; intros E; rewrite E in H; exact H).
+  destruct (W4 Hc) as [Hk _]. cbn in Hk. destruct (W5 w r H). auto.
+Qed.
+
+(* the two together: a lookup number that has been handed out is answered exactly once within the time-out, or it is
+   waiting and its time-out has not been reached *)
+Theorem every_lookup_fires_within_timeout ops x w :
+  let t := tubof x (run ops) in
+  w < t_issued t ->
+  (exists f, In f (t_fired t) /\ f_id f = w /\ (f_reg f <= f_at f <= f_reg f + CONNECTION_TIMEOUT)%Z) \/
+  (exists r, In (w, r) (t_waiters t) /\ (r <= now (run ops) < r + CONNECTION_TIMEOUT)%Z).
+Proof.
+  cbv zeta. intros Hw. destruct (lookups_accounted ops x) as (_ & Hin & _). cbv zeta in Hin.
+  apply Hin in Hw. apply in_app_or in Hw as [Hw|Hw].
+  - left. apply in_map_iff in Hw as (f & Ef & Hf). exists f. split; [exact Hf|]. split; [exact Ef|].
+    destruct (fired_within_timeout ops x f Hf) as (? & ? & _). lia.
+  - right. apply in_map_iff in Hw as ([w' r] & Ef & Hf). cbn in Ef. subst w'. exists r. split; [exact Hf|].
+    destruct (waiting_has_armed_timer ops x w r Hf) as (_ & ? & ? & ?). lia.
+Qed.
+
+(* time can always pass (the model never blocks the clock): Advance by dt > 0 moves the clock forward *)
+Lemma fold_min_gt (P : nat -> bool) (f : nat -> Z) lo l :
+  (forall i, P i = true -> (lo < f i)%Z) -> forall a, (lo < a)%Z -> (lo < fold_left (fun n i => if P i then Z.min n (f i) else n) l a)%Z.
+Proof.
+  intros HP. induction l as [|i l IH]; intros a Ha; cbn [fold_left]; [exact Ha|].
+  apply IH. destruct (P i) eqn:E; [specialize (HP i E); lia|exact Ha].
+Qed.
+
+Lemma now_advance dt s : now (do_advance dt s) = Z.max (now s) (next_time s (now s + Z.max dt 0)).
+Proof.
+  unfold do_advance.
+  repeat match goal with |- context [if ?b then _ else _] => destruct b end; rewrite ?timeout_now; reflexivity.
+Qed.
+
+Theorem time_passes ops dt : (0 < dt)%Z -> (now (run ops) < now (step (run ops) (Advance dt)))%Z.
+Proof.
+  intros Hdt. cbn [step]. rewrite now_advance. set (s := run ops).
+  destruct (run_winv ops) as [Hm Hs]. fold s in Hm, Hs.
+  assert (Lm : t_connector (tm s) <> None -> (now s < t_deadline (tm s))%Z).
+  { intros Hc. destruct Hm as (_ & _ & _ & H4 & _). destruct (H4 Hc) as [Hk _]. exact Hk. }
+  assert (Ls : t_connector (ts s) <> None -> (now s < t_deadline (ts s))%Z).
+  { intros Hc. destruct Hs as (_ & _ & _ & H4 & _). destruct (H4 Hc) as [Hk _]. exact Hk. }
+  assert (G : (now s < next_time s (now s + Z.max dt 0))%Z); [|lia].
+  unfold next_time. apply (fold_min_gt (fun i => srv_armed (conns s i) && (now s <? sdl s i)%Z)%bool (sdl s)).
+  - intros i E. apply andb_true_iff in E as [_ E]. apply Z.ltb_lt in E. exact E.
+  - destruct (t_connector (tm s)); [specialize (Lm ltac:(discriminate))|];
+      (destruct (t_connector (ts s)); [specialize (Ls ltac:(discriminate))|]); lia.
+Qed.
+
+(* the forced firing of the connector's timer answers everybody who was waiting (no retry armed: nobody waits afterwards) *)
 Theorem timeout_answers_all ops x :
   let s := run ops in let s' := step s (Timeout x) in
-  (t_waiters (tubof x s) <> 0 -> t_connector (tubof x s) <> None) /\
-  t_fired (tubof x s') = t_fired (tubof x s) + t_waiters (tubof x s) /\
-  (t_waiters (tubof x s') <> 0 -> t_connector (tubof x s') <> None) /\
-  (t_retry (tubof x s) = false -> t_waiters (tubof x s') = 0).
+  (t_waiters (tubof x s) <> [] -> t_connector (tubof x s) <> None) /\
+  (t_retry (tubof x s) = false -> t_waiters (tubof x s') = []) /\
+  (forall w r, In (w, r) (t_waiters (tubof x s)) -> t_broker (tubof x s) = None /\
+     In (mkfired w r (now s) false) (t_fired (tubof x s'))).
 Proof.
-  cbv zeta. pose proof (winv_tubof x _ (run_winv ops)) as W.
-  pose proof (winv_tubof x _ (step_winv _ (Timeout x) (run_winv ops))) as W'.
-  split; [apply W|]. split; [|split; [apply W'|]].
-  - cbn [step]. unfold do_timeout. destruct (t_connector (tubof x (run ops))) eqn:Ec.
-    + set (s1 := map_conns (cancel x n) (run ops)).
-      assert (Et : tubof x (set_tub x (connector_gone (tubof x s1)) s1) = connector_gone (tubof x s1)) by (destruct x; reflexivity).
-      rewrite Et. assert (E1 : tubof x s1 = tubof x (run ops)) by (destruct x; reflexivity). rewrite E1.
-      apply fired_gone; [exact W|congruence].
-    + destruct W as (W1 & _). destruct (t_waiters (tubof x (run ops))); [lia|]. exfalso. apply W1; [discriminate|exact Ec].
-  - intros Hr. cbn [step]. unfold do_timeout. destruct (t_connector (tubof x (run ops))) eqn:Ec.
-    + set (s1 := map_conns (cancel x n) (run ops)).
-      assert (Et : tubof x (set_tub x (connector_gone (tubof x s1)) s1) = connector_gone (tubof x s1)) by (destruct x; reflexivity).
-      rewrite Et. assert (E1 : tubof x s1 = tubof x (run ops)) by (destruct x; reflexivity). rewrite E1.
-      destruct (tubof x (run ops)) as [a b c d e f g h w fi is r]. cbn in Hr. subst r.
-      unfold connector_gone, connection_failed_forgets_first, errback_all. cbn. destruct b; cbn; [|reflexivity].
-      apply W. cbn. discriminate.
-    + destruct W as (W1 & _). destruct (t_waiters (tubof x (run ops))); [reflexivity|]. exfalso. apply W1; [discriminate|exact Ec].
+  cbv zeta. pose proof (winv_tubof true x _ (run_winv ops)) as W. destruct W as (W1 & W2 & _).
+  split; [exact W1|]. cbn [step]. unfold do_timeout.
+  destruct (t_connector (tubof x (run ops))) as [g|] eqn:Ec.
+  - set (s1 := map_conns (cancel x g) (run ops)). rewrite tubof_set_tub.
+    assert (E1 : tubof x s1 = tubof x (run ops)) by (destruct x; reflexivity). rewrite E1.
+    assert (En : now s1 = now (run ops)) by reflexivity. rewrite En.
+    unfold connector_gone, connection_failed_forgets_first, errback_all. cbn [set_connector t_broker t_retry t_waiters].
+    destruct (t_broker (tubof x (run ops))) eqn:Eb.
+    + assert (Hw : t_waiters (tubof x (run ops)) = []) by (apply W2; discriminate). rewrite Hw.
+      split; [intros _; cbn; exact Hw|]. intros w r [].
+    + split.
+      * intros ->. cbn [andb]. reflexivity.
+      * intros w r Hw. split; [reflexivity|].
+        assert (G : In (mkfired w r (now (run ops)) false) (t_fired (fire (now (run ops)) false (set_connector None (tubof x (run ops)))))).
+        { cbn [fire set_connector t_fired t_waiters]. apply in_or_app. right.
+          apply in_map_iff. exists (w, r). split; [reflexivity|exact Hw]. }
+        match goal with |- context [if ?b then _ else _] => destruct b end; [|exact G].
+        unfold getref_tub. cbn [set_retry fire set_connector t_broker t_connector]. rewrite Eb.
+        cbn [t_fired]. exact G.
+  - split; [|intros w r Hw; exfalso; apply W1; [intros E; rewrite E in Hw; exact Hw|reflexivity]].
+    intros _. destruct (t_waiters (tubof x (run ops))) eqn:Ew; [reflexivity|]. exfalso. apply W1; [discriminate|reflexivity].
 Qed.
 
 (* the instant retry: a lookup fails at the time-out, its errback looks the Tub up again at once; the new lookup waits
-   on a NEW connector and is answered by that connector's own time-out *)
+   on a NEW connector and is answered by that connector's own time-out, CONNECTION_TIMEOUT later *)
 Example retry_from_errback :
-  let s := run [GetRef TM; DialHint TM; ArmRetry TM; Timeout TM] in
-  t_fired (tm s) = 1 /\ t_waiters (tm s) = 1 /\ t_connector (tm s) = Some 1 /\ t_issued (tm s) = 2 /\
-  t_waiters (tm (step s (Timeout TM))) = 0 /\ t_fired (tm (step s (Timeout TM))) = 2.
-Proof. vm_compute. auto 10. Qed.
+  let s := run [GetRef TM; DialHint TM; ArmRetry TM; Advance 500] in
+  now s = 120%Z /\ t_fired (tm s) = [mkfired 0 0 120 false] /\ t_waiters (tm s) = [(1, 120%Z)] /\ t_connector (tm s) = Some 1 /\
+  t_deadline (tm s) = 240%Z /\
+  let s' := step s (Advance 500) in now s' = 240%Z /\ t_waiters (tm s') = [] /\
+  t_fired (tm s') = [mkfired 0 0 120 false; mkfired 1 120 240 false].
+Proof. vm_compute. repeat split. Qed.
+
+(* two lookups at different times share the connector of the first: both are answered when ITS timer fires *)
+Example waiting_then_timeout :
+  let s := run [GetRef TM; DialHint TM; DialHint TM; Advance 50; GetRef TM; Advance 60] in
+  now s = 110%Z /\ t_waiters (tm s) = [(0, 0%Z); (1, 50%Z)] /\
+  let s' := step s (Advance 60) in
+  now s' = 120%Z /\ t_waiters (tm s') = [] /\ t_fired (tm s') = [mkfired 0 0 120 false; mkfired 1 50 120 false].
+Proof. vm_compute. repeat split. Qed.
+
+(* the listening end's own negotiation timer: S's hello never arrives; M (listening) hangs up at SERVER_TIMEOUT *)
+Example server_timer_fires :
+  let s := run [GetRef TS; Advance 10; DialHint TS; Timeout TS; GetRef TS; Advance 200] in
+  now s = 130%Z /\ c_m (conns s 0) = ECloNeg.
+Proof. vm_compute. repeat split. Qed.
 
 (* ------------------------------------------------------------------------------------------ *)
-(* 6. the non-master records the connection it accepts, whoever dialled it                     *)
-
-Lemma slave_attach t c : t_slave (fire (set_broker (Some c) (set_connector None t))) = t_slave t.
-Proof. reflexivity. Qed.
+(* 7. the non-master records the connection it accepts, whoever dialled it                     *)
 
 (* uses slave_table_recorded_always, read from acceptDecisionVersion1 *)
 Lemma slave_records_decision c s i q rest :
@@ -833,13 +1132,90 @@ Proof.
     try (match goal with |- context [match ?o with Some _ => _ | None => _ end] => destruct o end); cbn; auto.
 Qed.
 
-(* no lookup is lost or answered twice (counts): made = answered + still waiting; none waits while connected *)
-Theorem lookups_accounted ops x :
-  t_issued (tubof x (run ops)) = t_fired (tubof x (run ops)) + t_waiters (tubof x (run ops)) /\
-  (t_broker (tubof x (run ops)) <> None -> t_waiters (tubof x (run ops)) = 0).
-Proof. destruct (winv_tubof x _ (run_winv ops)) as (_ & W2 & W3). split; assumption. Qed.
+(* ------------------------------------------------------------------------------------------ *)
+(* 8. the decision lemmas lifted to the two-Tub model: what the master's Tub does with an offer *)
 
-Example waiting_then_timeout :
-  let s := run [GetRef TM; DialHint TM; DialHint TM; GetRef TM] in
-  t_waiters (tm s) = 2 /\ t_waiters (tm (step s (Timeout TM))) = 0 /\ t_fired (tm (step s (Timeout TM))) = 2.
-Proof. vm_compute. auto. Qed.
+Lemma deliver_m_offer s c inc last rest e :
+  Nat.ltb c (nconn s) = true -> c_qsm (conns s c) = Hello inc last :: rest -> c_m (conns s c) = ENeg ->
+  t_broker (tm s) = Some e ->
+  step s (Deliver c TM) =
+    let s0 := set_conns (upd (conns s) c (pop_sm (conns s c))) s in
+    match compare_offer (Some inc) last (t_bir (tm s)) (t_bseq (tm s)) (t_inc (tm s)) (ho s) (now s - t_bcreated (tm s)) with
+    | Ok true => master_accept c inc (drop_existing TM s0)
+    | _ => master_reject c s0
+    end.
+Proof.
+  intros Hc Eq Em Eb. cbn [step]. rewrite Hc. unfold deliver_m. rewrite Eq, Em.
+  cbn [set_conns tm now ho]. rewrite Eb. reflexivity.
+Qed.
+
+(* refused: the master's Tub (current connection, tables, waiters) is untouched, every other connection is untouched,
+   the offering connection is hung up *)
+Lemma offer_refused s c inc last rest e :
+  Nat.ltb c (nconn s) = true -> c_qsm (conns s c) = Hello inc last :: rest -> c_m (conns s c) = ENeg ->
+  t_broker (tm s) = Some e ->
+  compare_offer (Some inc) last (t_bir (tm s)) (t_bseq (tm s)) (t_inc (tm s)) (ho s) (now s - t_bcreated (tm s)) = Ok false ->
+  let s' := step s (Deliver c TM) in
+  tm s' = tm s /\ ts s' = ts s /\ (forall j, j <> c -> conns s' j = conns s j) /\ c_m (conns s' c) = ECloNeg.
+Proof.
+  intros Hc Eq Em Eb Ecmp. cbv zeta. rewrite (deliver_m_offer s c inc last rest e Hc Eq Em Eb). cbv zeta. rewrite Ecmp.
+  unfold master_reject. cbn [set_conns tm ts conns].
+  split; [reflexivity|]. split; [reflexivity|]. split.
+  - intros j Hj. rewrite !upd_other by exact Hj. reflexivity.
+  - rewrite !upd_same. destruct (conns s c) as [cl g m s_ qms qsm cut]. cbn in Em. subst m.
+    unfold lose, enq, pop_sm. cbn. destruct cut; reflexivity.
+Qed.
+
+(* accepted: the offering connection becomes the master's current one, with the offer's incarnation and the next seqnum *)
+Lemma offer_accepted s c inc last rest e :
+  Nat.ltb c (nconn s) = true -> c_qsm (conns s c) = Hello inc last :: rest -> c_m (conns s c) = ENeg ->
+  t_broker (tm s) = Some e ->
+  compare_offer (Some inc) last (t_bir (tm s)) (t_bseq (tm s)) (t_inc (tm s)) (ho s) (now s - t_bcreated (tm s)) = Ok true ->
+  let s' := step s (Deliver c TM) in
+  t_broker (tm s') = Some c /\ t_bir (tm s') = Some inc /\ t_bseq (tm s') = (t_master (tm s) + seqnum_step)%Z /\
+  t_master (tm s') = (t_master (tm s) + seqnum_step)%Z /\ t_bcreated (tm s') = now s.
+Proof.
+  intros Hc Eq Em Eb Ecmp. cbv zeta. rewrite (deliver_m_offer s c inc last rest e Hc Eq Em Eb). cbv zeta. rewrite Ecmp.
+  unfold master_accept, attach, drop_existing. cbn [tubof set_conns tm]. rewrite Eb.
+  repeat match goal with |- context [if ?b then _ else _] => destruct b end;
+    try (match goal with |- context [match ?o with Some _ => _ | None => _ end] => destruct o end); cbn; auto.
+Qed.
+
+(* "an established healthy connection is not displaced by a redundant attempt from the same peer incarnation", in the
+   model: the offer of the incarnation the master is connected to, which remembers nothing or an older connection of
+   this master incarnation, leaves the master's Tub exactly as it was *)
+Theorem model_redundant_not_displacing s c inc lir lseq rest e :
+  Nat.ltb c (nconn s) = true -> c_qsm (conns s c) = Hello inc (Some (lir, lseq)) :: rest -> c_m (conns s c) = ENeg ->
+  t_broker (tm s) = Some e -> t_bir (tm s) = Some inc ->
+  (lir = IR_NONE \/ (lir = t_inc (tm s) /\ (lseq < t_bseq (tm s))%Z)) ->
+  let s' := step s (Deliver c TM) in
+  tm s' = tm s /\ ts s' = ts s /\ (forall j, j <> c -> conns s' j = conns s j) /\ c_m (conns s' c) = ECloNeg.
+Proof.
+  intros Hc Eq Em Eb Eir Hl. apply (offer_refused s c inc (Some (lir, lseq)) rest e Hc Eq Em Eb).
+  rewrite Eir. apply compare_same_incarnation_older_or_none. exact Hl.
+Qed.
+
+(* "an attempt from a restarted peer does displace the stale one", in the model *)
+Theorem model_restart_displaces s c inc last rest e :
+  Nat.ltb c (nconn s) = true -> c_qsm (conns s c) = Hello inc (Some last) :: rest -> c_m (conns s c) = ENeg ->
+  t_broker (tm s) = Some e -> t_bir (tm s) <> Some inc ->
+  let s' := step s (Deliver c TM) in
+  t_broker (tm s') = Some c /\ t_bir (tm s') = Some inc /\ t_bseq (tm s') = (t_master (tm s) + seqnum_step)%Z /\
+  t_master (tm s') = (t_master (tm s) + seqnum_step)%Z /\ t_bcreated (tm s') = now s.
+Proof.
+  intros Hc Eq Em Eb Hir. apply (offer_accepted s c inc (Some last) rest e Hc Eq Em Eb).
+  apply compare_new_incarnation. exact Hir.
+Qed.
+
+(* the hypotheses are satisfiable: S dials twice after being connected (parallel redundant hint: refused);
+   S restarts and dials (displaces) *)
+Example redundant_offer_reachable :
+  let s := run [GetRef TS; DialHint TS; DialHint TS; Deliver 0 TM] in
+  c_qsm (conns s 1) = [Hello 1 (Some (IR_NONE, 0%Z))] /\ c_m (conns s 1) = ENeg /\ t_broker (tm s) = Some 0 /\
+  t_bir (tm s) = Some 1%Z /\ tm (step s (Deliver 1 TM)) = tm s.
+Proof. vm_compute. repeat split. Qed.
+Example restarted_offer_reachable :
+  let s := run [GetRef TS; DialHint TS; Deliver 0 TM; Deliver 0 TS; Deliver 0 TS; Restart TS; GetRef TS; DialHint TS] in
+  c_qsm (conns s 1) = [Hello 2 (Some (IR_NONE, 0%Z))] /\ c_m (conns s 1) = ENeg /\ t_broker (tm s) = Some 0 /\
+  t_bir (tm s) = Some 1%Z /\ t_broker (tm (step s (Deliver 1 TM))) = Some 1.
+Proof. vm_compute. repeat split. Qed.
